@@ -142,11 +142,14 @@ def revLoop : Nat → List Byte → Nat → Nat → Res (List Byte)
       | _, _ => .panic
     else .ok buf
 
+/-- `if padLen >= maxBufSize { padLen = maxBufSize - 1 }` -/
+def clampPad (padLen : Int) : Int := if padLen ≥ maxBufSize then (maxBufSize : Int) - 1 else padLen
+
 /-- the body of `fmtInt` after the type switch: `neg` = `sval < 0`, `uval` the magnitude.
 Returns the scratch buffer and the chunk `numFmtBuf[0:end]`. -/
 def fmtIntCore (buf : List Byte) (neg : Bool) (uval : Nat) (b : Base) (padLen : Int) :
     Res (List Byte × List Byte) :=
-  let padLen : Int := if padLen ≥ maxBufSize then (maxBufSize : Int) - 1 else padLen
+  let padLen : Int := clampPad padLen
   match digitLoop b.divider (maxBufSize + 1) buf 0 uval with
   | .panic => .panic
   | .ok (buf, right) =>
@@ -171,12 +174,15 @@ def fmtIntCore (buf : List Byte) (neg : Bool) (uval : Nat) (b : Base) (padLen : 
         | .panic => .panic
         | .ok buf => if right ≤ numFmtBufCap then .ok (buf, buf.take right) else .panic
 
+/-- `uint64(-sval)` -/
+def negMag (sval : Int) : Nat := (wrap64 (-sval) % 2^64).toNat
+
 /-- the type switch of `fmtInt`: `(sval < 0, uval)`; `none` = not an integer -/
 def classify : Arg → Option (Bool × Nat)
   | .uns _ v => some (false, v % 2^64)
   | .sgn _ v =>
     let s := wrap64 v
-    if s < 0 then some (true, (wrap64 (-s) % 2^64).toNat) else some (false, s.toNat)
+    if s < 0 then some (true, negMag s) else some (false, s.toNat)
   | _ => none
 
 def fmtInt (buf : List Byte) (a : Arg) (b : Base) (padLen : Int) : Res (List Byte × List Byte) :=
@@ -187,10 +193,13 @@ def fmtInt (buf : List Byte) (a : Arg) (b : Base) (padLen : Int) : Res (List Byt
 /-- `fmtRepeat`: `count` single-byte writes (none if `count ≤ 0`) -/
 def fmtRepeat (ch : Byte) (count : Int) : List (List Byte) := List.replicate count.toNat [ch]
 
+/-- `padLen-len(castedVal)`, a Go `int` -/
+def strPadCount (padLen : Int) (len : Nat) : Int := wrap64 (padLen - len)
+
 def fmtString (a : Arg) (padLen : Int) : List (List Byte) :=
   match a with
-  | .str s => fmtRepeat 32 (wrap64 (padLen - s.length)) ++ s.map fun c => [c]
-  | .bytes s => fmtRepeat 32 (wrap64 (padLen - s.length)) ++ [s]
+  | .str s => fmtRepeat 32 (strPadCount padLen s.length) ++ s.map fun c => [c]
+  | .bytes s => fmtRepeat 32 (strPadCount padLen s.length) ++ [s]
   | _ => [errWrongArgType]
 
 def fmtBool (a : Arg) : List (List Byte) :=
@@ -209,6 +218,9 @@ def fmtVerb (buf : List Byte) (c : Byte) (a : Arg) (padLen : Int) : Res (List By
   else if c = 115 then .ok (buf, fmtString a padLen)
   else .ok (buf, fmtBool a)
 
+/-- `padLen = (padLen * 10) + int(nextCh-'0')`, a Go `int` -/
+def accumWidth (padLen : Int) (c : Byte) : Int := wrap64 (wrap64 (padLen * 10) + (c.toNat - 48 : Nat))
+
 /-- The `Fprintf` loop.  `mode = none`: copying literal text; `mode = some padLen`: after a `%`.
 Returns the list of chunks passed to `Write`, in order. -/
 def scan : Option Int → List Byte → List Arg → List Byte → Res (List (List Byte))
@@ -218,7 +230,7 @@ def scan : Option Int → List Byte → List Arg → List Byte → Res (List (Li
     else (scan none rest args buf).bind fun ws => .ok ([c] :: ws)
   | some pad, c :: rest, args, buf =>
     if c = 37 then (scan none rest args buf).bind fun ws => .ok ([37] :: ws)
-    else if 48 ≤ c ∧ c ≤ 57 then scan (some (wrap64 (wrap64 (pad * 10) + (c.toNat - 48 : Nat)))) rest args buf
+    else if 48 ≤ c ∧ c ≤ 57 then scan (some (accumWidth pad c)) rest args buf
     else if isVerb c then
       match args with
       | [] => (scan none rest [] buf).bind fun ws => .ok (errMissingArg :: ws)
@@ -261,7 +273,7 @@ def verbLoop (fmt : List Byte) (args : List Arg) :
       | .ok c =>
         if c = 37 then .ok (be, na, buf, [[37]])
         else if 48 ≤ c ∧ c ≤ 57 then
-          verbLoop fmt args fuel (be + 1) (wrap64 (wrap64 (pad * 10) + (c.toNat - 48 : Nat))) na buf
+          verbLoop fmt args fuel (be + 1) (accumWidth pad c) na buf
         else if isVerb c then
           if na ≥ args.length then .ok (be, na, buf, [errMissingArg])
           else
